@@ -60,8 +60,8 @@ def run(ctx):
     c09.check_callers(ctx)
     c09.check_row_index(ctx)
     # hop 6: record state
-    from ..rules import pickle_state_agreement
-    pickle_state_agreement(ctx, repo.cls('fit_info', 'FitInfo'), exclude=('meta',))
+    from ..staterules import state_roundtrip
+    state_roundtrip(ctx, repo.cls('fit_info', 'FitInfo'), exclude=('meta',))
     # a fitter gives the planted answer for every source, not only the first: no state carried between fits; distances in the requested unit
     from . import c11
     c11.check_purity(ctx)
